@@ -414,6 +414,93 @@ def _approx_check(ctx, m):
             ctx.ob('C19.D3', '_approx_check branch `%s`: every kind-specific use of v2 is dominated by a test of '
                              'v2\'s kind' % norm(st)[:60], True, where)
     ctx.floor('_approx_check branches', nbr, 6)
+    _approx_symmetry(ctx, fn, v1, v2, body)
+    # element-wise comparison with zip() must be preceded by a length comparison (zip stops at the shorter one)
+    for node in ast.walk(fn):
+        if isinstance(node, ast.Call) and norm(node.func) == 'zip' and len(node.args) == 2:
+            names = {norm(a) for a in node.args}
+            if not names <= {v1, v2, '%s.items()' % v1, '%s.items()' % v2, 'sorted(%s.items())' % v1, 'sorted(%s.items())' % v2}:
+                continue
+            lens = {'len(%s) == len(%s)' % (v1, v2), 'len(%s) == len(%s)' % (v2, v1)}
+            guarded = False
+            p = getattr(node, '_parent', None)
+            while p is not None and p is not fn:
+                if isinstance(p, ast.BoolOp) and isinstance(p.op, ast.And) and any(norm(v) in lens for v in p.values):
+                    guarded = True
+                if isinstance(p, ast.If) and any(l in norm(p.test) for l in lens):
+                    guarded = True
+                p = getattr(p, '_parent', None)
+            for st in body:
+                if isinstance(st, ast.If) and any(l.replace('==', '!=') in norm(st.test) for l in lens):
+                    guarded = True
+            if guarded:
+                ctx.ob('C19.D3', 'element-wise comparison `%s` is guarded by a length comparison' % norm(node), True,
+                       '%s:%d' % (FG, node.lineno))
+            else:
+                ctx.violation('C19.D3', '%s::Grid._approx_check' % FG, norm(node),
+                              'a grid with the list cell [1] equals a grid with the list cell [1, 2] (and != says False): '
+                              'zip() stops at the shorter sequence, so a sequence equals any longer one that starts with it',
+                              'sequence cells are compared element-wise with zip() but their lengths are never compared',
+                              file=FG, line=node.lineno, engine='E6')
+
+
+SPECIAL = {'datetime.time', 'datetime.datetime', 'Quantity', 'Coordinate'}
+
+
+def _approx_symmetry(ctx, fn, v1, v2, body):
+    """kinds tested on the left operand must be excluded on the right one too; booleans are not numbers;
+    the tolerance comparison must be reflexive for NaN / INF"""
+    tests = []
+    for n in ast.walk(fn):
+        if isinstance(n, ast.If):
+            tests.append(n)
+    left_kinds = set()
+    for n in tests:
+        for var, classes in _isinstance_facts(n.test):
+            if var == v1:
+                left_kinds |= set(classes) & SPECIAL
+    sym = False
+    for n in tests:
+        facts = _isinstance_facts(n.test)
+        if len(facts) == 1 and facts[0][0] == v2 and left_kinds <= set(facts[0][1]) \
+                and [norm(x) for x in n.body] == ['return False']:
+            sym = True
+    where = '%s:%d' % (FG, fn.lineno)
+    if not left_kinds:
+        ctx.error('C19.D3', '_approx_check: kind branches on the left operand not recognised')
+    elif sym:
+        ctx.ob('C19.D3', 'kinds tested on the left operand (%s) are refused on the right operand when the left is none of '
+                         'them: the comparison is symmetric across kinds' % ', '.join(sorted(left_kinds)), True, where)
+    else:
+        ctx.violation('C19.D3', '%s::Grid._approx_check' % FG, 'no branch `isinstance(%s, (%s))` -> False' % (v2, ', '.join(sorted(left_kinds))),
+                      'grid with the cell 1 == grid with the cell Quantity(1, "m") is True, the reverse comparison is False: '
+                      'only the left operand\'s kind is tested, and a Quantity on the right compares equal to a plain number '
+                      'through its own __eq__', 'the kind tests of _approx_check are not mirrored for the right operand: '
+                      'equality of grids is not symmetric', file=FG, line=fn.lineno, engine='E6')
+    # booleans
+    bool_branch = [n for n in tests if norm(n.test) in ('isinstance(%s, bool) or isinstance(%s, bool)' % (v1, v2),
+                                                         'isinstance(%s, bool) or isinstance(%s, bool)' % (v2, v1))]
+    if bool_branch and any('isinstance(%s, bool) and isinstance(%s, bool)' % (v1, v2) in norm(x) for x in bool_branch[0].body):
+        ctx.ob('C19.D3', 'a boolean cell only equals a boolean cell', True, '%s:%d' % (FG, bool_branch[0].lineno))
+    else:
+        ctx.violation('C19.D3', '%s::Grid._approx_check' % FG, 'no boolean branch',
+                      'grid with the cell True == grid with the cell 1 (a marker-like boolean equals a number: another kind)',
+                      '_approx_check does not keep booleans apart from numbers', file=FG, line=fn.lineno, engine='E6')
+    # tolerance comparison reflexive
+    tol = [n for n in ast.walk(fn) if isinstance(n, ast.Compare) and 'abs(' in norm(n.left)]
+    for t in tol:
+        p = getattr(t, '_parent', None)
+        txt = norm(p) if isinstance(p, ast.BoolOp) else norm(t)
+        has_eq = '%s == %s' % (v1, v2) in txt or '%s == %s' % (v2, v1) in txt
+        has_nan = ('%s != %s' % (v1, v1) in txt and '%s != %s' % (v2, v2) in txt) or 'isnan' in txt
+        if isinstance(p, ast.BoolOp) and isinstance(p.op, ast.Or) and has_eq and has_nan:
+            ctx.ob('C19.D3', 'the tolerance comparison is reflexive for NaN and +-INF (`%s`)' % txt[:70], True,
+                   '%s:%d' % (FG, t.lineno))
+        else:
+            ctx.violation('C19.D3', '%s::Grid._approx_check' % FG, norm(t),
+                          'a grid holding NaN (or INF) is not equal to its own faithful copy: abs(x - x) < eps is False for '
+                          'NaN and for INF - INF', 'the float tolerance test is not reflexive for non-finite numbers',
+                          file=FG, line=t.lineno, engine='E6')
 
 
 def _grid_eq(ctx, m):
@@ -448,9 +535,12 @@ def _grid_eq(ctx, m):
          has_test('set(%s.column.keys()) != set(%s.column.keys())' % (s, o),
                   'set(%s.column.keys()) != set(%s.column.keys())' % (o, s)),
          'grids with different column names compare equal'),
-        ('column metadata sizes are compared',
-         has_test('len(%s.column[col]) != len(%s.column[col])' % (s, o)),
-         'a column with an extra metadata tag on one side compares equal'),
+        ('column metadata tag names are compared',
+         has_test('set(%s.column[col].keys()) != set(%s.column[col].keys())' % (s, o),
+                  'set(%s.column[col].keys()) != set(%s.column[col].keys())' % (o, s),
+                  'set(%s.column[col]) != set(%s.column[col])' % (s, o)),
+         'columns with the same number of metadata tags under different names: %s.column[col][key] raises KeyError instead of '
+         'the comparison answering False (or, without any test, an extra tag on one side goes unnoticed)' % o),
         ('every column metadata value is compared',
          any('%s.column[col][key]' % s in c and '%s.column[col][key]' % o in c for c in calls),
          'grids whose column metadata values differ compare equal'),
